@@ -181,11 +181,203 @@ def case_direction(case):
     return obs
 
 
+def case_seasurface(case):
+    """_seasurface on the paths that add no cells: the sea surface is a
+    node of the returned centre part, or the warning says it is not."""
+    with_vector, = case
+    E = shadow.load()
+    c = set_ctx(Ctx(timeout_ms=60000))
+    State.OBJECT_ALLOC = True
+    M = E.meshes
+    grp = f"_seasurface ({'vector' if with_vector else 'single centre cell'})"
+    saved = [(M, 'np', M.np), (M, 'sp', M.sp)]
+
+    def sfloor(x):
+        if not symx.has_sym(x):
+            return np.floor(x)
+        x = Q._co(x)
+        if bool(x >= 0) and bool(x < 1):
+            return 0
+        if bool(x < 0) and bool(x >= -1):
+            return -1
+        raise symx.PathAbort()      # n >= 1 cells to add: brentq (outside)
+
+    def no_brentq(*a, **k):
+        raise symx.PathAbort()
+    M.np = _Namespace(M.np, dict(floor=sfloor))
+    M.sp = _Namespace(M.sp, dict(optimize=_Namespace(
+        M.sp.optimize, dict(brentq=no_brentq))))
+    cen, ss = Q.var('center'), Q.var('seasurface')
+    c.assume(B(ss.t > cen.t))
+    if with_vector:
+        v0, v1, v2 = Q.var('v0'), Q.var('v1'), Q.var('v2')
+        c.assume(B(z3.And(v0.t < v1.t, v1.t < v2.t, v0.t <= cen.t,
+                          cen.t <= v2.t)))
+    else:
+        dm = Q.var('dmin')
+        c.assume(B(dm.t > 0))
+    obs = []
+    n = dict(paths=0, warned=0, node=0)
+    bad = None
+    t0 = time.time()
+
+    def run():
+        if with_vector:
+            vec = np.array([v0, v1, v2], dtype=object).view(symx.SymArray)
+            edges = np.array([v0, v2], dtype=object).view(symx.SymArray)
+            widths = np.array([v1-v0, v2-v1], dtype=object).view(
+                symx.SymArray)
+        else:
+            vec = None
+            edges = np.array([cen-dm/2, cen+dm/2], dtype=object).view(
+                symx.SymArray)
+            widths = np.array(dm, dtype=object).view(symx.SymArray)
+        with warnings.catch_warnings(record=True) as w:
+            warnings.simplefilter('always')
+            e2, w2 = M._seasurface(edges, widths, cen, ss, [1.0, 1.5], vec,
+                                   None)
+        return e2, w2, any('Seasurface is not' in str(x.message) for x in w)
+
+    try:
+        for (e2, w2, warned), pc, tr in c.explore(run, budget_s=600):
+            n['paths'] += 1
+            c.pc = pc
+            nodes = [Q._co(e2[0])]
+            for v in np.atleast_1d(np.asarray(w2, dtype=object)).ravel():
+                nodes.append(nodes[-1]+Q._co(v))
+            # "is a node" to the tolerance of the code's own test
+            # (np.isclose, atol 1e-8; 2e-8 here): the clause holds to rounding
+            tol8 = Fraction(2, 10**8)
+            isnode = z3.Or(*[z3.And(symx.qt(nd)-ss.t <= tol8,
+                                    ss.t-symx.qt(nd) <= tol8)
+                             for nd in nodes])
+            if warned:
+                n['warned'] += 1
+                continue
+            n['node'] += 1
+            v, m = c.valid(isnode, label='seasurface node')
+            if v != 'held':
+                wit = None
+                if m is not None:
+                    names = dict(center=cen, seasurface=ss)
+                    names.update(dict(v0=v0, v1=v1, v2=v2) if with_vector
+                                 else dict(dmin=dm))
+                    wit = {k: float(symx.model_value(m, q))
+                           for k, q in names.items()}
+                bad = (v, wit)
+                break
+    except Inconclusive as e:
+        obs.append(ob("exploration budget", 'unknown', group=grp,
+                      note=str(e)))
+    finally:
+        for mod, nm, val in saved:
+            setattr(mod, nm, val)
+    if bad:
+        obs.append(ob("sea surface is a node, or the warning is issued",
+                      'cex' if bad[0] == 'cex' else 'unknown', group=grp,
+                      cls='LIN', seconds=time.time()-t0,
+                      key="automatic gridding: sea surface neither a node "
+                          "nor warned about",
+                      cex=dict(kind='seasurface', with_vector=with_vector,
+                               witness=bad[1])))
+    elif not obs:
+        obs.append(ob(f"{n['paths']} paths without added cells: sea surface "
+                      f"is a node of the centre part ({n['node']}) or the "
+                      f"'not at an actual boundary' warning is issued "
+                      f"({n['warned']})", 'held', group=grp, cls='LIN',
+                      seconds=c.stats['solver_s']))
+    obs.append(ob("reachability: node paths and warning paths", 'twin_sat'
+                  if (n['warned'] and n['node']) or bad else 'twin_unsat',
+                  group=grp, cls='LIN', nontrivial=False))
+    return obs
+
+
+def case_cell_numbers(_):
+    """good_mg_cell_nr is a pure function of its three arguments: a grid of
+    argument triples in several call orders against the specification
+    {p * 2**k <= max_nr : p in {2,3,5,...} <= max_lowest, k >= min_div}
+    (concrete; labelled as such)."""
+    import itertools
+    E = shadow.load()
+    M = E.meshes
+    grp = "good_mg_cell_nr: specification and independence of earlier calls"
+
+    def spec(max_nr, max_lowest, min_div):
+        low = [p for p in (2, 3, 5, 7, 9, 11, 13, 15, 17, 19)
+               if p <= max_lowest]
+        return sorted({p*2**k for p in low for k in range(min_div, 30)
+                       if p*2**k <= max_nr})
+    triples = [(a, b_, d) for a in (100, 1024) for b_ in (3, 5, 7)
+               for d in (0, 1, 3, 4)]
+    bad = None
+    for order in (triples, triples[::-1],
+                  sorted(triples, key=lambda t: (t[2], t[1], t[0]))):
+        for t in order:
+            got = [int(x) for x in M.good_mg_cell_nr(*t)]
+            if got != spec(*t):
+                bad = t
+                break
+        if bad:
+            break
+    default_ok = [int(x) for x in M.good_mg_cell_nr()] == spec(1024, 5, 3)
+    return [ob(f"{len(triples)} argument triples in three call orders equal "
+               f"the specification; default call unaffected",
+               'cex' if bad or not default_ok else 'held', group=grp,
+               cls='concrete', nontrivial=False,
+               key="good_mg_cell_nr depends on earlier calls / wrong numbers",
+               cex=dict(kind='cellnr', triple=list(bad) if bad else None)
+               if bad or not default_ok else None)]
+
+
 # --------------------------------------------------------------------------
 def replay(cex):
     import emg3d
     from scipy.constants import mu_0
     warnings.filterwarnings('ignore')
+    if cex.get('kind') == 'cellnr':
+        def spec(max_nr, max_lowest, min_div):
+            low = [p for p in (2, 3, 5, 7, 9, 11, 13, 15, 17, 19)
+                   if p <= max_lowest]
+            return sorted({p*2**k for p in low for k in range(min_div, 30)
+                           if p*2**k <= max_nr})
+        msgs = []
+        triples = [(a, b_, d) for a in (100, 1024) for b_ in (3, 5, 7)
+                   for d in (0, 1, 3, 4)]
+        for order in (triples, triples[::-1]):
+            for t in order:
+                if [int(x) for x in emg3d.meshes.good_mg_cell_nr(*t)] != \
+                        spec(*t):
+                    msgs.append(f"good_mg_cell_nr{t} wrong")
+        if [int(x) for x in emg3d.meshes.good_mg_cell_nr()] != \
+                spec(1024, 5, 3):
+            msgs.append("default call returns other numbers after earlier "
+                        "calls")
+        return bool(msgs), ("real good_mg_cell_nr: " +
+                            ('; '.join(msgs[:3]) or 'as specified'))
+    if cex.get('kind') == 'seasurface':
+        w = cex.get('witness')
+        if not w:
+            return False, 'no witness'
+        if cex['with_vector']:
+            vec = np.array([w['v0'], w['v1'], w['v2']])
+            edges, widths = np.array([w['v0'], w['v2']]), np.diff(vec)
+        else:
+            vec = None
+            edges = np.array([w['center']-w['dmin']/2,
+                              w['center']+w['dmin']/2])
+            widths = np.array(w['dmin'])
+        with warnings.catch_warnings(record=True) as ws:
+            warnings.simplefilter('always')
+            e2, w2 = emg3d.meshes._seasurface(
+                edges, widths, w['center'], w['seasurface'], [1.0, 1.5],
+                vec, None)
+        warned = any('Seasurface is not' in str(x.message) for x in ws)
+        nodes = e2[0]+np.r_[0, np.cumsum(np.atleast_1d(w2))]
+        isnode = np.abs(nodes-w['seasurface']).min() <= 2e-8
+        return (not isnode and not warned), (
+            f"real _seasurface(seasurface={w['seasurface']:.6g}, nodes="
+            f"{np.round(nodes, 6).tolist()}): node={bool(isnode)}, warning="
+            f"{warned}")
     w = cex.get('witness')
     if not w:
         return False, 'no witness'
@@ -268,7 +460,10 @@ def main(tier):
                                 ((1.0, 1.002), (6, 8)))
                  for coe in (False, True) for lfc in (False, True)
                  for ud in (False, True)]
-    obs = pmap(_dispatch, [('case_direction', x) for x in cases])
+    jobs = [('case_direction', x) for x in cases]
+    jobs += [('case_seasurface', (True,)), ('case_seasurface', (False,)),
+             ('case_cell_numbers', None)]
+    obs = pmap(_dispatch, jobs)
     run.add(obs)
     run.bounds = dict(
         cases=cases, symbolic="centre, survey domain (a, b > 0 around the "
@@ -288,7 +483,9 @@ def main(tier):
     run.stubs = ["meshes.skin_depth / cell_width / wavelength -> symbolic "
                  "positive reals", "np.log10 of the info string -> 0 "
                  "(display precision)", "builtins.float -> symx.symfloat"]
-    run.outside = ["vector", "seasurface", "realistic stretching pairs "
+    run.outside = ["vector in origin_and_widths", "_seasurface paths that "
+                   "add cells (brentq root finding)", "realistic stretching "
+                   "pairs "
                    "(up to 100x100 candidates) and cell-number lists",
                    "construct_mesh routing, estimate_gridding_opts, "
                    "good_mg_cell_nr", "Laplace-domain frequencies, the six "
